@@ -399,7 +399,7 @@ class BufferedFront(object):
                         try:
                             mi = s.model
                             res = compare_reader(srch.reader(), mi.docs, mi.schema, mi.field_names,
-                                                 parts=("count", "docs", "stored", "terms"))
+                                                 parts=("count", "docs", "stored", "terms", "columns"))
                         finally:
                             srch.close()
                         s.count("buffered_view_checks")
@@ -499,7 +499,7 @@ def execute(record, trace=False):
                 # cold reopen in a brand-new process
                 s.new_process("final")
                 ix = s.actor_storage().open_index()
-                check_index(s, ix, "final cold reopen", soft_columns=fe in ("buffered", "bufferedN"))
+                check_index(s, ix, "final cold reopen")
                 if fe in ("buffered", "bufferedN"):
                     pend = [t for t in getattr(s.k, "sim_timers", [])
                             if t._task is not None and not t._cancelled and not t._fired]
@@ -514,7 +514,7 @@ def execute(record, trace=False):
                 if record.get("copy_to_ram") and record.get("storage_kind") == "file":
                     from whoosh.filedb.filestore import copy_to_ram
                     ram = copy_to_ram(ix.storage)
-                    check_index(s, ram.open_index(), "copy_to_ram", soft_columns=fe in ("buffered", "bufferedN"))
+                    check_index(s, ram.open_index(), "copy_to_ram")
                     s.count("copy_to_ram_checked")
             except Violation as v:
                 return viol(v)
